@@ -40,7 +40,7 @@ RULE = ("op sequences over a pool of 3-6 keys x (4 IPv4 + 3 IPv6 + 2 host-name a
         "contains a query after a removal/address update/service change that follows an earlier query (stale-cache shape). "
         "NOTE: the design promised exhaustive depth 6 over 3 peers; that is not delivered (cost), see design.d/C12.md")
 TRUSTED_BASE = [
-    "tools/gen_c12.py: reads ADDRESS_TYPE_* constants, the struct formats of Address.pack/unpack (AST), Peer.INTERFACE_ORDER and the three cache caps",
+    "tools/gen_c12.py: reads ADDRESS_TYPE_* constants, the struct formats of Address.pack/unpack (AST), Peer.INTERFACE_ORDER, the three cache caps, and translates the guards / store effects of network.py's property-carrying paths into Lean Bool functions (atoms recognised structurally)",
     "hand-written model of every Network mutator/query incl. LRU side effects (Ipv8/C12/Model.lean), tied by the correspondence run; cache ORDER/eviction policy is tied only through answers and the cap bound",
     "the Python reference graph `Spec` (harness/c12.py) and the Lean `Graph.step` are transcriptions of what the code's mutators do to the membership (without index and caches), not an independent specification of the mutators; what is independent is the meaning of the by-key / by-address lookups; the per-service, walkable and introduction conditions restate the code's filters",
     "object identity of Peer instances is modelled as generation numbers (index, set, address cache); the service cache is by key; the harness checks identity on the real objects",
@@ -427,6 +427,53 @@ _MUT_SITE = {"add": "add_verified_peer", "disc": "discover_address", "svcs": "di
              "caps": "caps", "set": "Peer.add_address"}
 CACHES = (("reverse_ip_lookup", "reverse_ip_cache_size"), ("reverse_intro_lookup", "reverse_intro_cache_size"),
           ("reverse_service_lookup", "reverse_service_cache_size"))
+
+
+# Every branch of the hand-written model definitions that carry a clause of the property, as the input class that reaches
+# it (classify()).  A quick run in which one of these stays at zero has silently lost coverage of a model branch whose only
+# link to the code is this correspondence run: that is an infrastructure failure (exit 2), not a pass.
+REQUIRED_CLASSES = {
+    "Net.addVerified / Gen.addBranch": [
+        "add>add:blacklisted-mid", "add>add:address-update", "add>add:known-no-change", "add>add:some-address-known",
+        "add>add:some-address-known+blacklisted-address", "add>add:all-addresses-new", "add>add:no-address",
+        "add>add:refused-blacklisted-address", "disc>add:address-update", "disc>add:all-addresses-new",
+        "disc>add:some-address-known", "add:stored-object-passed"],
+    "Net.updateStored (in place)": ["set:stored-peer-changes-address", "set:stored-peer-new-class", "set:no-stored-peer"],
+    "Net.discoverAddress / needsIntro / introduce": [
+        "disc:blacklisted-address", "disc:new-address", "disc:reassigned(introducer-gone)",
+        "disc:reassigned(introducer-gone)+same-introducer-again", "disc:kept(introducer-verified)",
+        "disc:address-used-by-verified-peer", "disc:empty-service-id", "disc:stored-object-passed"],
+    "Net.discoverServices": ["svcs:verified-peer", "svcs:unverified-peer", "svcs:empty-service-id", "svcs:stored-object-passed"],
+    "Net.removePeer": ["rmp:stored-object", "rmp:fresh-object-other-addresses", "rmp:key-not-verified"],
+    "Net.removeByAddress": ["rma:removes-0-peers", "rma:removes-1-peers", "rma:removes-2+-peers",
+                            "rma:address-used-by-verified-peer-but-not-in-_all_addresses"],
+    "Net.loadSnapshot / decodeAll / decodeAddr / utf8Valid": [
+        "load:0-addresses", "load:1-addresses", "load:2-addresses", "load:3+-addresses", "load:undecodable-rest(<8)",
+        "load:undecodable-rest(8+)", "load:multibyte-utf8-host", "load:blacklisted-address",
+        "load:overwrites-introduced-address", "load:own-snapshot-fed-back"],
+    "Net.chooseByAddr / getByAddr": [
+        "qa:0-candidates", "qa:1-candidates", "qa:2+-candidates", "qa:cache-miss", "qa:cache-full", "qa:cache-hit:valid",
+        "qa:cache-hit:stale(address-changed)", "qa:cache-hit:stale(object-removed)"],
+    "Net.peersForService": ["qs:cache-hit", "qs:cache-hit+full", "qs:cache-miss", "qs:cache-miss+full"],
+    "Net.walkable / walkFilter / truthy": ["qw:no-service", "qw:no-service(empty id)", "qw:cache-hit", "qw:cache-miss",
+                                           "qw:answer-depends-on-unverified-introducer"],
+    "Net.introsFrom": ["qi:cache-hit", "qi:cache-hit+full", "qi:cache-miss", "qi:cache-miss+full"],
+    "Graph.snapshotAddrs / Peer.preferred": [
+        "snap:0-verified-peers", "snap:1-verified-peers", "snap:2-verified-peers", "snap:3+-verified-peers",
+        "snap:peer-address-not-in-_all_addresses", "snap:peer-without-usable-address", "snap:address-only-from-constructor",
+        "peer:constructor-address", "peer:constructor-address(class outside INTERFACE_ORDER)",
+        "peer:LAN-or-Domain-address-class"],
+    "address arguments by class": ["address-argument-class:0", "address-argument-class:1", "address-argument-class:2",
+                                   "address-argument-class:3", "address-argument-class:4"],
+    "observers": ["observer:added", "observer:removed"],
+}
+
+
+def enforce_coverage(ctx: Ctx):
+    missing = [f"{unit}: {c}" for unit, cs in REQUIRED_CLASSES.items() for c in cs if not ctx.counts.get("class:" + c)]
+    ctx.extra["required_branch_classes"] = {"required": sum(len(v) for v in REQUIRED_CLASSES.values()), "missing": missing}
+    if missing and not ctx.failures and not ctx.disagreements:
+        raise InfraError("coverage lost: no generated input reached " + "; ".join(missing))
 
 
 class _Hang(Exception):
@@ -1157,6 +1204,10 @@ def scripted():
          f"disc p1:0={a} {V4[3]} s1 0", "svcs p1:- [s2]", "qw s2 0", "qi p1"],
         # caps raised in the middle of a history
         ["caps 1 1 1", f"add p0:0={a}", f"add p1:0={b}", f"qa {a} ?", f"qa {b} ?", "caps 2 2 2", f"qa {a} ?", f"qa {b} ?", "qs s1", "qs s2"],
+        # deterministic hits for branch classes the other shapes leave to the random part (see REQUIRED_CLASSES)
+        [c500, "add p0:-", f"add p1:^0={a}", f"bla {x}", f"add p2:0={a},3={x}", f"disc @p1:* {V4[3]} s1 0", f"rmp p1:0={b}",
+         f"bla {b}", "load " + addr_chunk(b).hex() + addr_chunk(a).hex()[:6], f"qa {V6[0]}~1 ?", f"qa {DOM[0]}~4 ?",
+         f"qa {a}~2 ?", f"qn {a}~0", "qw - 0"],
         # snapshot -> load: only the service-less query sees the loaded addresses
         [c500, "load " + addr_chunk(a).hex() + addr_chunk(b).hex(), "qw - 0", "qw s1 0", f"add p0:0={a}", "qw - 0", "snap"],
     ]
@@ -1179,6 +1230,7 @@ def run(ctx: Ctx):
     run_batch(ctx, seqs, "random", use_model)
     if ctx.thorough():
         exhaustive(ctx, 5, use_model, [EXH_ALPHABET[i] for i in EXH_SMALL])
+    enforce_coverage(ctx)
 
 
 def search(ctx: Ctx, reason: str):
